@@ -44,7 +44,7 @@ var anchorErr error
 var anchorN int
 
 func requireSighashAnchor(r *rep.Run) bool {
-	anchorOnce.Do(func() { anchorN, anchorErr = sighashref.Anchor("/repo/bscript/interpreter/data") })
+	anchorOnce.Do(func() { anchorN, anchorErr = sighashref.Anchor(vectorsDir()) })
 	if anchorErr != nil {
 		r.HarnessError("sighash reference failed its anchor (node vectors): " + anchorErr.Error())
 		return false
